@@ -10,7 +10,7 @@ RULE = ("random call programs on a Writer (Write with lengths 0 / block / jobs*b
 
 def check(run):
     from props import _stream
-    _stream.check(run, PID, "c17", RULE, extra_cmds=("wrm", "rdm"))
+    _stream.check(run, PID, "c17", RULE, extra_cmds=("wrm", "rdm", "ctm"))
 
 def replay(path):
     import json
